@@ -130,6 +130,11 @@ func c12Run(r *fw.R, d c12Desc) {
 		{"sub." + base, "subdomain"}, {base + ".", "trailing-dot"}, {"evil.com", "foreign"}, {"10.0.0.1", "foreign-ip"}, {"[::2]", "foreign-ipv6"}, {"", "empty"},
 		{strings.Replace(base, ".", "-", 1), "dot-replaced"},
 	}
+	// long foreign hosts whose first 32 / 64 / 128 bytes are a name the usual patterns authorise
+	for _, n := range []int{32, 64, 128} {
+		l := n - len(".example.com")
+		hosts = append(hosts, part{strings.Repeat("a", l) + ".example.com.evil.net", fmt.Sprintf("long-lookalike-%d", n)})
+	}
 	ports := []part{{"", "none"}, {":443", "443"}, {":80", "80"}, {":8080", "8080"}, {":1", "1"}}
 	if reqPort != "" && reqPort != "443" && reqPort != "80" && reqPort != "8080" && reqPort != "1" {
 		ports = append(ports, part{":" + reqPort, "host-port"})
@@ -145,6 +150,20 @@ func c12Run(r *fw.R, d c12Desc) {
 
 	// no Origin header at all: always accepted
 	c12One(r, d, "", false, 1, "no-origin", "")
+	// several origins in one value (RFC 6454 7.1 allows a list; this server reads one origin): a foreign origin
+	// does not get in by travelling with an authorised one
+	foreignOK := false
+	for _, p := range d.Patterns {
+		if glob(p, "evil.com") || glob(p, "") || strings.Count(p, "[") != strings.Count(p, "]") {
+			foreignOK = true
+		}
+	}
+	if !d.Skip && !foreignOK && !strings.HasPrefix(reqHost, "[") {
+		for _, o := range []string{"https://evil.com https://" + d.Host, "https://" + d.Host + " https://evil.com", "https://evil.com\thttps://" + d.Host, "https://evil.com  https://" + d.Host} {
+			// (comma separated values are not lists: "host:port,https:" is one odd authority, which a port wildcard may match)
+			c12One(r, d, o, true, 0, "origin-list-with-foreign-member", "")
+		}
+	}
 	r.Count("no_origin_accepted", 1)
 	r.SetSample(map[string]any{"desc": d, "origin_example": "https://" + base + "@evil.com:8080/" + base + "?next=https://" + base + "/#@" + base})
 
